@@ -194,6 +194,10 @@ def grid_numpy(name, timeout=90):
     pre = " and ".join(rng.format(v=v) for v in ("x1", "y1", "x2", "y2"))
     body = """
 from histogrammar.plot.hist_numpy import get_2dgrid, prepare_2dgrid
+with NT():   # history: the grid helpers have already been used on differently shaped histograms in this process
+    for other in (HC.TwoDimensionallySparselyHistogram(1.0, qx, 1.0, qy), H.Bin(3, -3.0, 3.0, qx, H.Bin(5, -5.0, 5.0, qy))):
+        for r0 in ((0.5, -2.5, None, 0.0), (-1.5, 4.5, None, 0.0), (2.5, 1.5, None, 0.0)): other.fill(r0)
+        get_2dgrid(other)
 h = fresh(MK, 1)[0]
 recs = [(x1, y1, None, 0.0), (x2, y2, None, 0.0)]
 for r in recs: h.fill(r)
